@@ -115,6 +115,11 @@ impl<'a> ConnectTx<'a> {
                 .map(ByteLen::byte_len)
                 .unwrap_or(0)
                 + self
+                    .receive_maximum
+                    .as_ref()
+                    .map(ByteLen::byte_len)
+                    .unwrap_or(0)
+                + self
                     .maximum_packet_size
                     .as_ref()
                     .map(ByteLen::byte_len)
